@@ -29,7 +29,7 @@ THEOREMS = ['C02_balanced', 'C02_exit_only_active', 'C02_enter_only_inactive', '
 
 
 def gen(rng, i, tier):
-    c = hsm.gen_case(rng, max_depth=(4 if tier == 'thorough' and i % 3 == 0 else 3), p_parallel=0.35,
+    c = hsm.gen_case(rng, max_depth=(4 if tier == 'thorough' and i % 3 == 0 else 3), p_parallel=0.35, p_enum=0.2,
                      p_subset=(0.7 if i % 10 == 7 else 0.0))
     n = [0]
     for p, d in hsm.all_defs(c['machine']):
@@ -122,6 +122,8 @@ def nontrivial(case, obs):
 
 
 def stats(case, obs, dist):
+    if case.get('enum'):
+        dist['cases_with_enum_named_states'] = dist.get('cases_with_enum_named_states', 0) + 1
     if not isinstance(obs, list) or obs[0] != 1:
         return
     for items, res, cfg in obs[2]:
